@@ -842,7 +842,8 @@ def gen_api():
         for term, (pe, se, cmpk, tprops) in TERMINALS.items():
             for mode in ('par2', 'seq', 'par2u', 'sequ'):
                 unknown = mode.endswith('u')
-                if unknown and not (term.startswith('into_') and chain in ('map', 'empty', 'map_fil')):
+                # unknown length + map-only goes through a 32-fragment SplitVec (unwind > 32): beyond CBMC, not scheduled
+                if unknown and not (term.startswith('into_') and chain in ('map_fil',)):
                     continue
                 if term.startswith('into_') and chain not in ('map', 'empty', 'map_fil', 'fmap_fil', 'flat_fil'):
                     continue
@@ -871,6 +872,8 @@ def gen_api():
                     unw = max(n, 2 * n if flat else n, 2) + 2
                     if chain in ('map', 'empty', 'map_map') and (term in ('collect_vec', 'collect', 'collect_x') or term.startswith('into_')):
                         unw = 10  # ordered-bag path: mem::swap of the pinned-vector structs loops over their bytes
+                    if unknown and chain in ('map', 'empty'):
+                        unw = 36  # unknown length: SplitVec with 32 fragments capacity is converted fragment by fragment
                     body.append('#[kani::proof]\n#[kani::unwind(%d)]\n%sfn %s() {' % (unw, stubs.replace('    #[', '#['), name))
                     body.append('    let log = Log::new();')
                     body.append('    let log2 = Log::new();')
@@ -1067,7 +1070,7 @@ def generate_all():
                                  path='%s::vk_pair::%s' % (mod, nm), shape=dict(inputs='full-domain symbolic'), covers_expected=None, covers_min=0,
                                  bound='loop-free (find_chunk_size unrolled 22x with unwinding assertions: complete since the loop halves 2^20), full-domain symbolic inputs')
     for nm, cov in (('k_drop_filter_collect_vec', 2), ('k_drop_find_early_exit', 2), ('k_drop_map_collect_vec_bag', 1)):
-        HARNESSES[nm] = dict(kernel='api', family='drop', props=['C13'], tier='quick', bounded=True,
+        HARNESSES[nm] = dict(kernel='api', family='drop', props=['C13'], tier=('thorough' if nm == 'k_drop_filter_collect_vec' else 'quick'), bounded=True,
                              path='core::verif_kani::h_drop::%s' % nm, shape=dict(source='Vec of 3 drop-counting items via the real ConIterOfVec', workers=1),
                              covers_expected=cov,
                              bound='3 owned items with drop counters, real ConIterOfVec source, one worker via the Runner contract, symbolic predicate tables')
